@@ -60,7 +60,13 @@ class LtlPastifier(LtlAstVisitor):
         out = LtlAstVisitor.visit(self, node, *args, **kwargs)
         d = self.ast.phi_name_to_node_dict
         keys = [k for k, v in d.items() if v == node]
-        self.ast.phi_name_to_node_dict.update({key: out for key in keys})
+        # the name of an input variable keeps denoting the variable itself (the data supplied),
+        # not the delayed copy that stands in for it inside the pastified formula
+        named = out
+        if isinstance(node, Variable):
+            while not isinstance(named, Variable):
+                named = named.children[0]
+        self.ast.phi_name_to_node_dict.update({key: named for key in keys})
         return out
 
     def visitConstant(self, node, *args, **kwargs):
